@@ -542,7 +542,28 @@ func runC11(c *Ctx) {
 	curF2 := p.MustField("envelopingWriter", "current")
 	weF := p.MustField("envelopingWriter", "writingEnvelope")
 	ewErrF := p.MustField("envelopingWriter", "err")
-	recovers := func(in ssa.Instruction) bool {
+	// a helper method of the writer that itself establishes the state on every path (helper extraction)
+	establishes := map[*ssa.Function]int{} // 0 unknown, 1 yes, 2 no/in progress
+	var recovers func(in ssa.Instruction) bool
+	recovers = func(in ssa.Instruction) bool {
+		if ci, isCall := in.(*ssa.Call); isCall {
+			cal := ci.Call.StaticCallee()
+			if cal == nil || cal.Signature.Recv() == nil || len(cal.Blocks) == 0 || len(ci.Call.Args) == 0 || !types.Identical(ci.Call.Args[0].Type(), ewPT) {
+				return false
+			}
+			switch establishes[cal] {
+			case 1:
+				return true
+			case 2:
+				return false
+			}
+			establishes[cal] = 2
+			if okH, _ := MustPassToExit(cal, nil, recovers, IsReturn, nil); okH {
+				establishes[cal] = 1
+				return true
+			}
+			return false
+		}
 		st, ok := in.(*ssa.Store)
 		if !ok {
 			return false
